@@ -1,4 +1,5 @@
 import QcelVerif.Model.PTShipped
+import QcelVerif.Model.F64Check
 /-! C01 row predicate for the nuclide theorems (kernel evaluation over the generated tables); split out so that lake builds them in parallel. -/
 namespace QcelVerif.PT
 open QcelVerif QcelVerif.PStr
@@ -20,5 +21,12 @@ def nuclideRowAnycaseOk (r : Nat × Nat × Nat × Nat) : Bool :=
 
 /-- row predicate of `tree_is_dict` -/
 def treeRowOk (r : Nat × Nat × Nat × Nat) : Bool := Gen.PT.tree.lookup r.1 == some r.2
+
+/-- `float(mass)` as the model computes it (`Dec.toF64` of the decimal text) is the double nearest
+to the tabulated decimal — checked against the independent statement `F64Check.nearestOk` -/
+def massFloatOk (r : Nat × Nat × Nat × Nat) : Bool :=
+  match Dec.parse (unpack r.2.2.2) with
+  | some d => if d.coeff == 0 then Nat.beq d.toF64 0 else F64Check.nearestOk d d.toF64
+  | none => false
 
 end QcelVerif.PT
